@@ -142,7 +142,8 @@ def _junc(spec, name, init):
 
 def junction_gadgets(tier):
     """name, builder(spec, props) - number of proportion parameters needed"""
-    return [("single", 2), ("residual", 2), ("fan", 3), ("chain", 3), ("diamond", 4), ("res_chain", 3)]
+    # the *_rev / to_res / res_res gadgets declare the downstream junction BEFORE the upstream one (declaration order != topological order)
+    return [("single", 2), ("residual", 2), ("fan", 3), ("chain", 3), ("diamond", 4), ("res_chain", 3), ("chain_rev", 3), ("to_res", 3), ("res_res", 2)]
 
 
 def build_gadget(spec, gadget, props, jinit, inflow=("probability", None, 0.5), psrc="const", two_in=False):
@@ -188,6 +189,19 @@ def build_gadget(spec, gadget, props, jinit, inflow=("probability", None, 0.5), 
         _junc(spec, "j2", 0)
         _junc(spec, "j1", jinit)
         spec["links"] += [["j1", "b", P(0, props[0])], ["j1", "j2", ">"], ["j2", "c", P(1, props[1])], ["j2", "a", P(2, props[2])]]
+    elif gadget == "chain_rev":
+        _junc(spec, "j2", jinit / 2 if jinit else 0)
+        _junc(spec, "j1", jinit)
+        spec["links"] += [["j1", "b", P(0, props[0])], ["j1", "j2", P(1, props[1])], ["j2", "c", P(2, props[2])], ["j2", "a", P(3, 0.25)]]
+    elif gadget == "to_res":
+        # plain junction feeding a residual junction that is declared first
+        _junc(spec, "j2", jinit / 2 if jinit else 0)
+        _junc(spec, "j1", jinit)
+        spec["links"] += [["j1", "b", P(0, props[0])], ["j1", "j2", P(1, props[1])], ["j2", "c", P(2, props[2])], ["j2", "a", ">"]]
+    elif gadget == "res_res":
+        _junc(spec, "j2", 0)
+        _junc(spec, "j1", jinit)
+        spec["links"] += [["j1", "b", P(0, props[0])], ["j1", "j2", ">"], ["j2", "c", P(1, props[1])], ["j2", "a", ">"]]
     else:
         raise ValueError(gadget)
 
@@ -199,8 +213,8 @@ def gadget_domain_ok(gadget, props, scale_min=1.0):
         return props[0] + props[1] > 0
     if gadget == "fan":
         return sum(props[:3]) > 0
-    if gadget == "chain":
-        return props[0] + props[1] > 0  # j2 has the constant 0.25 outflow
+    if gadget in ("chain", "chain_rev", "to_res"):
+        return props[0] + props[1] > 0  # the downstream junction has a constant / residual outflow
     if gadget == "diamond":
         # j2 receives iff props[0]>0 ; j3 has a constant outflow
         return (props[0] + props[1] > 0) and (props[0] == 0 or props[2] + props[3] > 0)
